@@ -90,9 +90,17 @@ def inject(rng, g, executed, klass):
     by_container = {}
     for sl in slots:
         by_container.setdefault(sl[0], []).append(sl)
-    _, fname, off, depth = rng.choice(by_container[rng.choice(sorted(by_container))])
+    cont, fname, off, depth = rng.choice(by_container[rng.choice(sorted(by_container))])
     # macros of the valid program that take one argument (visible in the main file)
-    mwa = [name for name, has_arg, _ in g.macros if has_arg] if fname == "main.asm" else []
+    # (not inside a macro body: calling a macro from its own body would be a second fault -- unbounded recursion)
+    def lists(items):
+        yield items
+        for n in items:
+            for key in ("items", "then", "else"):
+                if isinstance(n.get(key), list):
+                    yield from lists(n[key])
+    in_macro = set(g.cid(l) for _, _, body in g.macros for l in lists(body))
+    mwa = [name for name, has_arg, _ in g.macros if has_arg] if (fname == "main.asm" and cont not in in_macro) else []
     lines, bad_idx, bad_col, parts = make_fault(rng, klass, mwa)
     files = dict(g.files)
     data = files[fname].encode("utf-8")
